@@ -621,9 +621,19 @@ func WindowWhen[T, B any](boundary Observable[B]) func(Observable[T]) Observable
 
 			mu := xsync.MutexWithSpinlock{}
 
+			// ended is set, under mu, by the flush that precedes a terminal notification:
+			// a boundary notification racing with it must not open one more window,
+			// which nobody would ever complete.
+			ended := false
+
 			flush := func(ctx context.Context, skipNew bool) {
 				// reset Observable even if no notification were sent
 				mu.Lock()
+
+				if ended {
+					mu.Unlock()
+					return
+				}
 
 				tmp := window
 
@@ -631,6 +641,8 @@ func WindowWhen[T, B any](boundary Observable[B]) func(Observable[T]) Observable
 				if !skipNew {
 					newSubject = NewUnicastSubject[T](UnicastSubjectUnlimitedBufferSize)
 					window = newSubject
+				} else {
+					ended = true
 				}
 
 				mu.Unlock()
